@@ -17,3 +17,6 @@ def run(rep: Report, repo: Repo, tier: str) -> None:
     writer_rules.rule_directive_order(rep, repo, "C14-R4")
     fsrules.rule_index_always_written(rep, repo, "C14-R5")
     fsrules.rule_isolation(rep, repo, "C14-R6")
+    # "no toctree entry lacks a generated target": the page of <dir>/<name>.cmake is written to <out>/<dir>/<stem>.rst
+    from . import pathterms
+    pathterms.rule_page_path(rep, repo, "C14-R7")
